@@ -15,10 +15,10 @@ for p in props:
         continue
     checks.append({
         "property_id": pid,
-        "quick_cmd": f"./check {pid} --tier quick",
-        "thorough_cmd": f"./check {pid} --tier thorough",
+        "quick_cmd": f"cd /verif && ./check {pid} --tier quick",
+        "thorough_cmd": f"cd /verif && ./check {pid} --tier thorough",
         "evidence_file": f"/verif/evidence/{pid}.json",
-        "replay_cmd_template": f"./check {pid} --replay {{path}}",
+        "replay_cmd_template": f"cd /verif && ./check {pid} --replay {{path}}",
         "engine": c["engine"],
         "level_claimed": {"category": c.get("category", "proof"), "text": c["text"], "design_ref": c["design_ref"]},
         "level_note": c["note"],
